@@ -689,6 +689,7 @@ func (hm *HandshakeManager) buildStage0Packet(hh *HandshakeHostInfo) bool {
 	// hostinfo.ConnectionState stays nil until the handshake completes in
 	// continueHandshake. Pre-completion control surfaces guard with nil
 	// checks; the data plane never observes a pending hostinfo.
+	verifPoint(verifHsAfterAllocIndex)
 	hh.hostinfo.HandshakePacket[handshakePacketStage0] = msg
 	hh.machine = machine
 	hh.ready = true
@@ -800,6 +801,7 @@ func (hm *HandshakeManager) beginHandshake(via ViaSender, packet []byte, h *head
 	}
 	hostinfo.buildNetworks(f.myVpnNetworksTable, remoteCert.Certificate)
 
+	verifPoint(verifHsBeforeCheckAndComplete)
 	existing, err := hm.CheckAndComplete(hostinfo, handshakePacketStage0, f)
 	if err != nil {
 		hm.handleCheckAndCompleteError(err, existing, hostinfo, via)
@@ -978,6 +980,7 @@ func (hm *HandshakeManager) continueHandshake(via ViaSender, hh *HandshakeHostIn
 	hostinfo.vpnAddrs = vpnAddrs
 	hostinfo.buildNetworks(f.myVpnNetworksTable, remoteCert.Certificate)
 
+	verifPoint(verifHsBeforeComplete)
 	hm.Complete(hostinfo, f)
 
 	if len(hh.packetStore) > 0 {
